@@ -229,42 +229,43 @@ Definition commit_finish (parents : list Z) (s : rstate) : xres :=
   let n := Z.of_nat (List.length (r_commits s)) in
   (None, rupdate_head n (w_commits s (r_commits s ++ [mkCmt (r_idx s) parents]))).
 
+(* Commit after the option checks and the All step: Amend, the two
+   ErrEmptyCommit tests, the parent's tree, the commit object, updateHEAD *)
+Definition commit_tail (o : copt) (parents0 : list Z) (s1 : rstate) : xres :=
+  match (if cm_amend o
+         then match rhead_commit s1 with
+              | None => inl XRefNotFound
+              | Some h => match rcommit s1 h with None => inl XObjectNotFound | Some c => inr (c_parents c) end
+              end
+         else inr parents0) with
+  | inl e => (Some e, s1)
+  | inr parents =>
+    if is_nil parents && is_nil (r_idx s1) && negb (cm_allow_empty o) then (Some XEmptyCommit, s1)
+    else
+    match parents with
+    | [] => commit_finish parents s1
+    | p0 :: _ =>
+      match rtree_of s1 p0 with
+      | None => (Some XObjectNotFound, s1)
+      | Some pt =>
+        if fmap_eqb (r_idx s1) pt && negb (cm_allow_empty o) then (Some XEmptyCommit, s1)
+        else commit_finish parents s1
+      end
+    end
+  end.
+
 Definition commit (o : copt) (s : rstate) : xres :=
   (* CommitOptions.Validate *)
   if cm_all o && cm_amend o then (Some XBadOptions, s)
   else if negb (cm_author o) && negb (r_user s) then (Some XMissingAuthor, s)
   else
   let parents0 := match rhead_commit s with Some h => [h] | None => [] end in
-  match (if cm_all o
-         then match rhead_tree s with
-              | HTErr => (Some XObjectNotFound, s)          (* Status() inside autoAdd… *)
-              | _ => (None, w_idx s (auto_add s))
-              end
-         else (None, s)) with
-  | (Some e, s1) => (Some e, s1)
-  | (None, s1) =>
-    match (if cm_amend o
-           then match rhead_commit s1 with
-                | None => inl XRefNotFound
-                | Some h => match rcommit s1 h with None => inl XObjectNotFound | Some c => inr (c_parents c) end
-                end
-           else inr parents0) with
-    | inl e => (Some e, s1)
-    | inr parents =>
-      if is_nil parents && is_nil (r_idx s1) && negb (cm_allow_empty o) then (Some XEmptyCommit, s1)
-      else
-      match parents with
-      | [] => commit_finish parents s1
-      | p0 :: _ =>
-        match rtree_of s1 p0 with
-        | None => (Some XObjectNotFound, s1)
-        | Some pt =>
-          if fmap_eqb (r_idx s1) pt && negb (cm_allow_empty o) then (Some XEmptyCommit, s1)
-          else commit_finish parents s1
-        end
-      end
-    end
-  end.
+  if cm_all o
+  then match rhead_tree s with
+       | HTErr => (Some XObjectNotFound, s)          (* Status() inside autoAddModifiedAndDeleted *)
+       | _ => commit_tail o parents0 (w_idx s (auto_add s))
+       end
+  else commit_tail o parents0 s.
 
 (* ---------- ancestry (remote.go isFastForward, without shallow boundaries) *)
 
@@ -499,45 +500,58 @@ Definition eff_restore (wk : bool) (files : list bytes) (s : rstate) : list eff 
     end
   end.
 
-Definition eff_commit (o : copt) (s s' : rstate) : list eff :=
-  (if cm_all o then [FSetIndex (auto_add s)] else [])
-  ++ FAddCommit (last (r_commits s') (mkCmt [] []))
-  :: eff_update_head (Z.of_nat (List.length (r_commits s))) s.
+(* Commit{All} has stored the index when it reaches its later tests *)
+Definition commit_stores_index (o : copt) (s : rstate) : bool :=
+  negb (cm_all o && cm_amend o) && negb (negb (cm_author o) && negb (r_user s)) && cm_all o
+  && negb (match rhead_tree s with HTErr => true | _ => false end).
 
-Definition eff_pull (e : penv) (s : rstate) : list eff :=
-  match pull_pre e s with
-  | (None, (rc, s1)) =>
-    match rtree_of s1 rc with
-    | Some t =>
-      let ri := reset_index t (r_idx s1) in
-      map (fun nc => FSetRef (tracking_name (fst nc)) (snd nc)) (pe_refs e)
-      ++ eff_update_head rc s1 ++ eff_update_head rc s1
-      ++ FSetIndex (fst ri)
-      :: match snd ri with
-         | [] => []
-         | _ => eff_worktree t (filter (fun p => existsb (beqb p) (snd ri)) (changed_paths (r_wt s1) (fst ri)))
-                             (fst ri) (r_wt s1)
-         end
-    | None => []
-    end
-  | _ => []
-  end.
+Definition eff_commit (o : copt) (s s' : rstate) (ok : bool) : list eff :=
+  (if commit_stores_index o s then [FSetIndex (auto_add s)] else [])
+  ++ (if ok
+      then FAddCommit (last (r_commits s') (mkCmt [] []))
+           :: eff_update_head (Z.of_nat (List.length (r_commits s))) s
+      else []).
 
-(* the stores of an operation whose refusals were all decided (no error
-   result), in program order; a refused operation of the model has none after
-   its last test *)
+(* the reference half of the fetch *)
+Definition eff_fetch (e : penv) : list eff :=
+  if negb (pe_conf e) || negb (pe_reach e) || is_nil (pe_refs e) then []
+  else map (fun nc => FSetRef (tracking_name (fst nc)) (snd nc)) (pe_refs e).
+
+(* the stores of Pull after the fetch: updateHEAD, then those of Reset{MergeReset} *)
+Definition eff_pull_tail (e : penv) (s : rstate) : list eff :=
+     match pull_pre e s with
+     | (None, (rc, s1)) =>
+       if runstaged s1 then []
+       else
+       eff_update_head rc s1
+       ++ match reset_merge rc (rupdate_head rc s1), rtree_of s1 rc with
+          | (None, _), Some t =>
+            let ri := reset_index t (r_idx s1) in
+            eff_update_head rc s1
+            ++ FSetIndex (fst ri)
+            :: match snd ri with
+               | [] => []
+               | _ => eff_worktree t (filter (fun p => existsb (beqb p) (snd ri)) (changed_paths (r_wt s1) (fst ri)))
+                                   (fst ri) (r_wt s1)
+               end
+          | _, _ => []
+          end
+     | _ => []
+     end.
+
+Definition eff_pull (e : penv) (s : rstate) : list eff := eff_fetch e ++ eff_pull_tail e s.
+
+(* the stores an operation performs, in program order, whether it then
+   succeeds or refuses *)
 Definition effects (o : xop) (s : rstate) : list eff :=
-  match fst (xstep o s) with
-  | Some _ => []
-  | None =>
-    match o with
-    | XMerge t _ => eff_update_head t s
-    | XAdd _ | XAddAll => [FSetIndex (r_idx (snd (xstep o s)))]
-    | XCommit c => eff_commit c s (snd (xstep o s))
-    | XRestore _ wk files => eff_restore wk files s
-    | XPull e => eff_pull e s
-    | XAddBad | XWrite _ _ | XRm _ => []
-    end
+  let r := xstep o s in
+  match o with
+  | XMerge t _ => match fst r with None => eff_update_head t s | Some _ => [] end
+  | XAdd _ | XAddAll => match fst r with None => [FSetIndex (r_idx (snd r))] | Some _ => [] end
+  | XCommit c => eff_commit c s (snd r) (negb (is_some (fst r)))
+  | XRestore _ wk files => match fst r with None => eff_restore wk files s | Some _ => [] end
+  | XPull e => eff_pull e s
+  | XAddBad | XWrite _ _ | XRm _ => []
   end.
 
 (* the repository after a fault that lets the first j stores through *)
@@ -595,12 +609,32 @@ Definition xnorm_op (o : xop) : xop :=
   | o => o
   end.
 
-(* fault suite: the snapshot after every prefix of the stores of the last op *)
-Definition c29ops_prefixes (s : rstate) (ops : list xop) (o : xop) : out :=
+(* fault suite: the state before the last op, its result and its stores (commit
+   numbers as the harness sees them: a commit the op itself creates is unknown, -2) *)
+Definition oeff (s : rstate) (f : eff) : out :=
+  match f with
+  | FSetRef n c => OList [OSym "setref"; OBytes n; ONum (rcommit_no s c)]
+  | FSetHead c => OList [OSym "sethead"; ONum (rcommit_no s c)]
+  | FSetIndex i => OList [OSym "setindex"; ofmap i]
+  | FWrite p e => OList [OSym "write"; OBytes p; okind (fst e); OBytes (snd e)]
+  | FRemove p => OList [OSym "remove"; OBytes p]
+  | FAddCommit _ => OList [OSym "addcommit"]
+  end.
+
+Definition c29ops_effects (s : rstate) (ops : list xop) (o : xop) : out :=
   let s0 := xnorm s in
   let s1 := fold_left (fun st op => snd (xstep op st)) (map xnorm_op ops) s0 in
   let o1 := xnorm_op o in
-  OList (map (fun j => xsnap (after_fault j o1 s1)) (seq 0 (S (List.length (effects o1 s1))))).
+  OList [xsnap s1;
+         match fst (xstep o1 s1) with None => OOk [] | Some x => oxerr x end;
+         OList (map (oeff s1) (effects o1 s1))].
+
+(* fault suite, the undisturbed run of the last op: result, state before, state after *)
+Definition c29ops_fault_base (s : rstate) (ops : list xop) (o : xop) : out :=
+  let s0 := xnorm s in
+  let s1 := fold_left (fun st op => snd (xstep op st)) (map xnorm_op ops) s0 in
+  let r := xstep (xnorm_op o) s1 in
+  OList [OSym "faults"; match fst r with None => OOk [] | Some x => oxerr x end; xsnap s1; xsnap (snd r)].
 
 (* correspondence entry point *)
 Definition c29ops_run (s : rstate) (ops : list xop) : out :=
